@@ -1,5 +1,6 @@
 import RadicaleProofs.Cache
 import RadicaleProofs.CacheLocal
+import RadicaleProofs.CacheFolder
 /-
   C13 — the item cache never changes what clients see.
 
@@ -131,5 +132,55 @@ theorem c13_upload_overrides_entry (m : Mode) (parse : Nat → Option Nat) (up :
     (stepReq m parse up s (.upload h f)).2 = some (up f.content) ∧
     (stepReq m parse up (stepReq m parse up s (.upload h f)).1 (.get h)).2 = some (up f.content) := by
   simp [stepReq, Cache.get, Cache.set]
+
+/-! ### where a collection's cache lives (model RadicaleModel/CacheFolder.lean): the cache model above is per collection — that
+    two collections never share item-cache, history or sync-token folders is what makes it so (seed C03i keyed the relocated
+    folder by the last path component) -/
+section Folder
+open Radicale.CacheFolder Radicale.Str
+
+/-- the relocated folder of the collection at `root ++ rel`: the root is replaced by the cache root, the rest is kept — provided
+    the root folder's text does not occur again inside the collection's own path -/
+theorem cache_folder_of_collection (root cache rel folder sub : Str) (hne : root ≠ [])
+    (hno : ∀ i, startsWith (rel.drop i) root = false) :
+    cacheSubfolder true root cache (root ++ rel) folder sub = join3 (cache ++ rel) folder sub := by
+  simp only [cacheSubfolder, if_true]
+  rw [replaceAll_prefix root cache rel hne]
+  simp only [replaceAll]
+  rw [replaceGo_no_occurrence root cache rel hno]
+
+/-- two different collections have different folders for each kind of cached data, relocated or not -/
+theorem cache_folders_distinct (relocated : Bool) (root cache rel₁ rel₂ folder sub : Str) (hne : root ≠ [])
+    (h₁ : ∀ i, startsWith (rel₁.drop i) root = false) (h₂ : ∀ i, startsWith (rel₂.drop i) root = false) (hd : rel₁ ≠ rel₂) :
+    cacheSubfolder relocated root cache (root ++ rel₁) folder sub ≠ cacheSubfolder relocated root cache (root ++ rel₂) folder sub := by
+  intro heq
+  cases relocated with
+  | true =>
+    rw [cache_folder_of_collection root cache rel₁ folder sub hne h₁, cache_folder_of_collection root cache rel₂ folder sub hne h₂] at heq
+    simp only [join3] at heq
+    have h3 : cache ++ rel₁ = cache ++ rel₂ := List.append_cancel_right (List.append_cancel_right heq)
+    exact hd (List.append_cancel_left h3)
+  | false =>
+    simp only [cacheSubfolder, Bool.false_eq_true, if_false, join3] at heq
+    have h3 : root ++ rel₁ = root ++ rel₂ := List.append_cancel_right (List.append_cancel_right heq)
+    exact hd (List.append_cancel_left h3)
+
+/-- the hypothesis is needed, and it is the code's (`str.replace` replaces every occurrence): where the root folder's text occurs
+    again inside a collection's path, two collections can be sent to one folder — observed on the real function by the
+    correspondence (`cache_folder_level`); it takes collections nested so that their path spells out the server's storage folder -/
+theorem cache_folders_collide_when_root_reoccurs :
+    cacheSubfolder true "/s/collection-root".toList "/s/collection-cache".toList "/s/collection-root/u/s/collection-root/x".toList ".Radicale.cache".toList "history".toList
+      = cacheSubfolder true "/s/collection-root".toList "/s/collection-cache".toList "/s/collection-root/u/s/collection-cache/x".toList ".Radicale.cache".toList "history".toList := by
+  decide
+
+example : (∀ i, startsWith ("/u/cal".toList.drop i) "/s/collection-root".toList = false) := by
+  intro i
+  by_cases h : i < 7
+  · have hb : ∀ j < 7, startsWith ("/u/cal".toList.drop j) "/s/collection-root".toList = false := by decide
+    exact hb i h
+  · have hd : "/u/cal".toList.drop i = [] := List.drop_eq_nil_of_le (by simp; omega)
+    rw [hd]; decide
+
+end Folder
 
 end C13
